@@ -624,6 +624,11 @@ func c06Mutate(c *fw.Ctx, idx int) {
 			const fills = " \t\n\r 0(A)  ,\xa0\x85\xa0"
 			fill := fills[r.Intn(len(fills))]
 			run := bytes.Repeat([]byte{fill}, []int{29, 30, 31, 32, 33, 59, 60, 61, 62, 100, 257}[r.Intn(11)]+r.Intn(2))
+			if r.Chance(1, 10) {
+				// blanks of the non-ASCII kind followed directly by bytes that can only
+				// continue a UTF-8 character (none started one)
+				run = append(bytes.Repeat([]byte{0xa0}, r.Range(28, 45)), bytes.Repeat([]byte{[]byte{0x80, 0xbf, 0x85}[r.Intn(3)]}, r.Range(1, 40))...)
+			}
 			if r.Chance(1, 12) {
 				// texts of several kilobytes (thresholds such as 4096 and 65536 are nearby)
 				run = bytes.Repeat([]byte{fill}, []int{4000, 4090, 4096, 4100, 5000, 9000, 65530, 65540, 70000}[r.Intn(9)]+r.Intn(3))
